@@ -943,3 +943,34 @@ def r10(cx):
 
 
 RS.explanation += ' While one child is awaited no other is collected: wait(any child) / update_all_subshell_statuses have reviewed callers only and are unreachable from the wait_for_subshell family (R10).'
+
+
+# ---------------------------------------------------------------------------------------
+# added after the audit C13h2 #2 (fix: children forked while SIGCHLD was ignored were lost)
+@RS.rule('C13.R1b', 'K-ORDER', 'the status of every child can be collected: the internal SIGCHLD disposition is installed (awaited, error '
+         'propagated) BEFORE the child process is created - a child that terminates while SIGCHLD is ignored (`trap \'\' CHLD`, or '
+         'inherited) is discarded by the kernel and the later wait() says ECHILD')
+def r1b(cx):
+    F = cx.F
+    START = 'yash_env::subshell::config::Config::<S, F>::start'
+    body = F.main_body('yash_env::subshell::config::Config::start')
+    cx.fn(body.fn)
+    forks = Q.find_calls(body, [re.compile(r'::run_in_child_process$'), re.compile(r'::new_child_process$')])
+    cx.require(forks, 'Config::start no longer creates the child with run_in_child_process / new_child_process')
+    arms = Q.find_calls(body, [re.compile(r'TrapSet::enable_internal_disposition_for_sigchld$')])
+    du = Q.DefUse(body)
+    for fb, ft in forks:
+        ok = False
+        for ab, at in arms:
+            done = await_done(F, body, du, at)
+            if done is not None and (body.dominates(done, fb) or done == fb):
+                ok = True
+        cx.site('Config::start: child created at %s; SIGCHLD handler installed (awaited) before: %s' % (body.loc(ft), ok))
+        if not ok:
+            cx.violation(body.root, 'fork-before-sigchld-handler', 'the child process is created before the shell has installed its SIGCHLD '
+                         'handler: if SIGCHLD is ignored at that moment (`trap \'\' CHLD`, or a parent that started the shell with SIGCHLD '
+                         'ignored) the kernel discards the status of a child that terminates quickly, `x=$(echo hi)` fails with "No child '
+                         'processes" and a pipeline panics on the ECHILD', loc=body.loc(ft))
+
+
+RS.explanation += ' The SIGCHLD handler is installed before a child is created (R1b).'
